@@ -1,7 +1,7 @@
 From Coq Require Import List Arith ZArith Bool Lia Permutation.
 Import ListNotations.
 From KV Require Import Model.Greedy.
-Open Scope Z_scope.
+Local Open Scope Z_scope.
 
 (* ---------- small facts ---------- *)
 Lemma is_min_in_spec x l : is_min_in x l = true <-> (forall y, In y l -> x <= y).
